@@ -36,13 +36,14 @@ C18_Routing(X) ==
 \* a listen key is refreshed at least once per keep-alive period for as long as its stream is subscribed
 \* the time during which a listen key (raw stream name of a spot_user_data subscription) stays subscribed: from its
 \* SUBSCRIBE frame until the connection ends or the channel is subscribed again on it (with a new key)
-Window(c, f, k) ==
+Window(c, i, k) ==
+  LET f == c.frames[i]
+      later == {j \in (i + 1)..Len(c.frames) : \E m \in DOMAIN c.frames[j].channels : c.frames[j].channels[m] = "spot_user_data"} IN
   [key |-> f.raw[k], from |-> f.t,
-   to |-> LET later == {g.t : g \in {h \in ToSet(c.frames) : h.t > f.t /\ \E j \in DOMAIN h.channels : h.channels[j] = "spot_user_data"}} IN
-          IF later = {} THEN c.end ELSE CHOOSE m \in later : \A x \in later : m <= x]
+   to |-> IF later = {} THEN c.end ELSE c.frames[CHOOSE m \in later : \A x \in later : m <= x].t]
 KeyWindows(X) ==
-  UNION {UNION {{Window(c, f, k) : k \in {j \in DOMAIN f.channels : f.channels[j] = "spot_user_data"}}
-                : f \in ToSet(c.frames)} : c \in ToSet(X.conns)}
+  UNION {UNION {{Window(c, i, k) : k \in {j \in DOMAIN c.frames[i].channels : c.frames[i].channels[j] = "spot_user_data"}}
+                : i \in 1..Len(c.frames)} : c \in ToSet(X.conns)}
 C18_KeepAlive(X) ==
   LET P == X.cfg.keepalive_s * 1000 + X.cfg.slack_ms IN
   \A w \in KeyWindows(X) :
